@@ -15,7 +15,7 @@
 //!   anything else     404 (fallback)
 //! pre-routing hook:  request header `x-hook: drop` -> 405 + Drop; `x-hook: dropclose` -> 405 with
 //!   `connection: close` + Drop; otherwise Proceed.
-use crate::interpose::{RECV_LOG_FD, RECV_MAX_LEN, RECV_PARKED};
+use crate::interpose::{RECV_COUNT, RECV_FAIL_AT, RECV_FAIL_ERRNO, RECV_LOG_FD, RECV_MAX_LEN, RECV_PARKED};
 use crate::util::*;
 use khttp::{Headers, Method, PreRoutingAction, Server, Status};
 use std::io::{Read, Write};
@@ -222,8 +222,21 @@ pub fn conn(arg: &str) -> String {
     let mut script = "";
     let mut warm = 0usize;
     let mut rto = 0u64;
+    let mut fail_at: i64 = -1;
+    let mut fail_errno = 0;
     for w in arg.split_whitespace() {
         if let Some(v) = w.strip_prefix("rto=") { rto = v.parse().unwrap_or(0) }
+        if let Some(v) = w.strip_prefix("fail=") {
+            // fail=<k>:<EINTR|EAGAIN|ECONNRESET|ETIMEDOUT>: the k-th read of the server on this connection fails that way
+            let mut it = v.split(':');
+            fail_at = it.next().and_then(|x| x.parse().ok()).unwrap_or(-1);
+            fail_errno = match it.next().unwrap_or("") {
+                "EINTR" => libc::EINTR,
+                "EAGAIN" => libc::EAGAIN,
+                "ETIMEDOUT" => libc::ETIMEDOUT,
+                _ => libc::ECONNRESET,
+            };
+        }
         if let Some(v) = w.strip_prefix("max=") { max = v.parse().unwrap_or(4096) }
         if let Some(v) = w.strip_prefix("script=") { script = v }
         if let Some(v) = w.strip_prefix("warm=") { warm = v.parse().unwrap_or(0) }
@@ -256,6 +269,9 @@ pub fn conn(arg: &str) -> String {
     let client_shut = std::sync::atomic::AtomicBool::new(false);
     let idle = || !client_shut.load(Ordering::SeqCst) && RECV_PARKED.load(Ordering::SeqCst) > 0 && fionread(srv_fd) == 0;
     RECV_MAX_LEN.store(0, Ordering::SeqCst);
+    RECV_COUNT.store(0, Ordering::SeqCst);
+    RECV_FAIL_ERRNO.store(fail_errno, Ordering::SeqCst);
+    RECV_FAIL_AT.store(fail_at, Ordering::SeqCst);
     RECV_LOG_FD.store(srv_fd, Ordering::SeqCst);
     let th = std::thread::spawn(move || {
         if let Some((ws, wstream, wclient)) = warm_pair {
@@ -307,12 +323,14 @@ pub fn conn(arg: &str) -> String {
         }
     }
     let maxrecv = RECV_MAX_LEN.load(Ordering::SeqCst);
+    let recvs = RECV_COUNT.load(Ordering::SeqCst);
     RECV_LOG_FD.store(-1, Ordering::SeqCst);
+    RECV_FAIL_AT.store(-1, Ordering::SeqCst);
     drop(client);
     let t0 = Instant::now();
     while !th.is_finished() && t0.elapsed() < Duration::from_millis(2000) {
         std::thread::sleep(Duration::from_millis(1));
     }
     let fin = if th.is_finished() { if th.join().unwrap_or(false) { "ok" } else { "err" } } else { "stuck" };
-    format!("T {} maxrecv={} srv={}", if out.is_empty() { "-".to_string() } else { out.join(",") }, maxrecv, fin)
+    format!("T {} maxrecv={} srv={} recvs={}", if out.is_empty() { "-".to_string() } else { out.join(",") }, maxrecv, fin, recvs)
 }
